@@ -16,14 +16,14 @@
 package e4
 
 import (
-	"math/bits"
-	"strconv"
-	"os"
-	"go/constant"
 	"fmt"
+	"go/constant"
 	"go/token"
 	"go/types"
+	"math/bits"
+	"os"
 	"sort"
+	"strconv"
 	"strings"
 
 	"gedverif/internal/cg"
@@ -175,24 +175,24 @@ type Write struct {
 
 // Analysis is one query.
 type Analysis struct {
-	P      *load.Prog
-	G      *cg.Graph
-	Root   *ssa.Function
-	objs   map[string]*Obj
-	Heap   map[*Obj]map[string]ObjSet // contents per field key ("Owner.field", "[]" elements, "*" cell/unknown)
-	follow map[string]bool            // field keys that belong to the node tree (structural + embedded structs + elements)
-	fv     map[ssa.Value]ObjSet
-	env    map[*Obj]map[ssa.Value]ObjSet // captured variables of closure objects
-	active map[*ssa.Function]int
+	P       *load.Prog
+	G       *cg.Graph
+	Root    *ssa.Function
+	objs    map[string]*Obj
+	Heap    map[*Obj]map[string]ObjSet // contents per field key ("Owner.field", "[]" elements, "*" cell/unknown)
+	follow  map[string]bool            // field keys that belong to the node tree (structural + embedded structs + elements)
+	fv      map[ssa.Value]ObjSet
+	env     map[*Obj]map[ssa.Value]ObjSet // captured variables of closure objects
+	active  map[*ssa.Function]int
 	factory map[*ssa.Function]bool
-	memo   map[string]*result
-	Writes map[string]*Write
-	stack  []string
-	inGo   int
-	inPool int
-	Budget int
-	steps  int
-	Over   bool
+	memo    map[string]*result
+	Writes  map[string]*Write
+	stack   []string
+	inGo    int
+	inPool  int
+	Budget  int
+	steps   int
+	Over    bool
 	// Returns of the root.
 	RootRet []ObjSet
 	changed bool
@@ -1536,7 +1536,7 @@ func (a *Analysis) DumpHeap(onlyKind string) string {
 }
 
 // NewSet returns an empty set; Single a one-element set.
-func NewSet() ObjSet        { return newSet() }
+func NewSet() ObjSet       { return newSet() }
 func Single(o *Obj) ObjSet { return single(o) }
 
 // PathToNonFresh returns a chain (object --field--> object ...) from the set
